@@ -1,28 +1,57 @@
-"""C12, cold-process part: two threads race on the FIRST model loader / dumper creation of the interpreter.
+"""C12, cold-process part: two threads race on the FIRST model loader / dumper creation of a process.
 
-State that adaptix initialises lazily once per process (class-level tables, module-level caches) is raced only by the very
-first requests of a process, so the in-process exploration of props/c12_concurrency.py -- whose reference run warms the
-process up before any race -- cannot reach it.  Here every schedule runs in a fresh interpreter:
+State that adaptix initialises lazily once per process (class-level tables such as ``Overlay._mergers``, module-level caches,
+one-element memos of providers living in the class-level recipe) is raced only by the very first requests of a process, so the
+in-process exploration of props/c12_concurrency.py -- whose reference run warms the process up before any race -- cannot reach
+it.  Here every schedule runs in a process that has never built a retort.
 
-* ``--child '{"mode": "profile"}'``: run the two-thread program sequentially with line events on EVERY file of the adaptix
-  package, once cold and once more on a fresh retort (warm); print the global yield indices of the lines that only the cold
-  run executed (first index per distinct line) -- the code that runs once per process.
-* ``--child '{"mode": "run", "cp": k, "what": "load"|"dump"}'``: thread 0 is parked at its k-th yield point, thread 1 runs its
-  whole call, thread 0 resumes; both outcomes, and later calls on the raced retort, are compared with a single-threaded run on
-  a fresh retort made AFTER the race (the property's oracle).  Prints one JSON line.
+What is explored is the product  SCENARIO x thread order x preemption point:
 
-The parent side (``explore_cold``) is called from props/c12_concurrency.py.
+* a *scenario* (``SCENARIOS``, pure data) = models + a retort recipe + the calls of the two threads.  The recipes are chosen so
+  that the RESULT of the calls depends on every piece of process-wide lazily initialised state the first request touches: all
+  three overlay classes of the name layout (structure: chained ``name_mapping(map=...)`` providers whose maps must be
+  concatenated, skip / only / name_style / trim_trailing_underscore / as_list; sieves: omit_default; extra policies: extra_in /
+  extra_out), overlays merged along a provider chain and along the MRO of the model, several models per retort.  A lost or
+  half-built merge table is then visible as a wrong key / a wrong policy, not only as an exception.
+* preemption points come from a line profile with line events on EVERY file of the adaptix package: the lines that a cold
+  sequential run of the scenario executes and a warm one (same process, fresh retort) does not -- the code that runs once per
+  process, wherever it lives.  Quick: the first occurrence of every such line (exhaustive) plus a seed-dependent sample of the
+  later occurrences; thorough: every occurrence.  Scenarios marked ``all_lines`` (two DIFFERENT models on the two threads: state
+  shared through objects that outlive a request) use all distinct lines of the first thread instead.
+
+Oracle (the property's): both threads finish; every call made during the race, every later call on the raced retort and every
+call on a fresh retort made after the race has the outcome of a single-threaded run -- taken from a clean process that never ran
+two threads (so a race that corrupts process-wide state for good cannot corrupt the reference as well).
+
+Processes: a *zygote* (``--zygote``) imports adaptix, defines the models and then only forks: every request (profile, reference,
+one schedule) runs in a fork of that never-used image, ~8x cheaper than a fresh interpreter.  At the start of every shard one
+profile is also taken in a really fresh interpreter (``--child``) and must be identical to the zygote's.  A hang is confirmed in
+a fresh interpreter with a longer grace period before it is reported.
+
+The parent side (``explore_cold`` / ``check_cold_case``) is called from props/c12_concurrency.py.
 """
-import dataclasses
-import enum
+import atexit
 import json
 import os
 import random
+import re
+import select
+import signal
 import subprocess
 import sys
-from typing import Dict, List, Optional
+import time
+import types
 
 HERE = os.path.dirname(os.path.dirname(os.path.abspath(__file__)))
+
+
+# ------------------------------------------------------------------------------------------------ models
+# Source, not classes: it is executed twice, into the modules cold12_models_a (the models every schedule uses) and
+# cold12_models_b (equal but distinct classes: what a process that is already warm does when it meets NEW types)
+MODELS_SRC = '''
+import dataclasses
+import enum
+from typing import Dict, Generic, List, Literal, NamedTuple, Optional, TypedDict, TypeVar, Union
 
 
 class Color(enum.Enum):
@@ -54,116 +83,393 @@ class Node:
     tags: Dict[str, int] = dataclasses.field(default_factory=dict)
 
 
+@dataclasses.dataclass
+class Pair:
+    a: int
+    b: int
+    c_: int = 0
+
+
+@dataclasses.dataclass
+class Doc:
+    title: str
+    body_text: str = ""
+    page_count: int = 0
+    secret: str = "s"
+    tags_: List[str] = dataclasses.field(default_factory=list)
+    class_: str = "c"
+    rest: dict = dataclasses.field(default_factory=dict)
+
+
+@dataclasses.dataclass
+class Base:
+    id: int
+    kind: str = "k"
+    sort_key: int = 0
+
+
+@dataclasses.dataclass
+class Child(Base):
+    name: str = ""
+
+
+@dataclasses.dataclass
+class Box:
+    pair: Pair
+    docs: List[Doc] = dataclasses.field(default_factory=list)
+
+
+T = TypeVar("T")
+
+
+@dataclasses.dataclass
+class Gen(Generic[T]):
+    item: T
+    items: List[T] = dataclasses.field(default_factory=list)
+
+
+class NT(NamedTuple):
+    p: int
+    q: str = "q"
+
+
+class TD(TypedDict, total=False):
+    k: int
+    l_: str
+
+
+@dataclasses.dataclass
+class Zoo:
+    lit: Literal["a", "b"]
+    uni: Union[int, str]
+    nt: NT
+    td: TD
+    gen: Gen[int]
+    color: Color = Color.RED
+    opt: Optional[Pair] = None
+'''
+
+
+# ------------------------------------------------------------------------------------------------ scenarios (pure data)
+def _dump(tp, src):
+    return ["dump", tp, src]
+
+
+def _load(tp, src):
+    return ["load", tp, src]
+
+
+_NODE_DATUM = ("{'value': 1, 'leaf': {'c': 1}, 'children': [{'value': 2, 'leaf': {'c': 1, 't': 'x'}, 'children': [], "
+               "'tags': {'a': 1}}]}")
+_NODE_BAD = "{'value': 1, 'leaf': {'c': 5}, 'children': [{'value': 'x', 'leaf': {'c': 1}, 'children': []}]}"
+_NODE_OBJ = "Node(1, Leaf(Color.RED), [Node(2, Leaf(Color.RED, 'x'), [], {'a': 1})])"
+
+# three links that apply to Doc, each sets some options, several options are set by more than one link (the first wins, maps are
+# concatenated): every field of the three overlay classes is merged at least once with both sides present
+_POLICY_RECIPE = (
+    "[name_mapping(Doc, map={'title': 'Title'}, omit_default=True),"
+    " name_mapping(Doc, skip=['secret', 'rest'], map=[('body_text', 'Body')], extra_in=ExtraForbid(), extra_out='rest',"
+    "              omit_default=False, name_style=NameStyle.UPPER_SNAKE),"
+    " name_mapping(name_style=NameStyle.CAMEL, trim_trailing_underscore=False, map={'tags_': 'labels', 'title': 'T'},"
+    "              extra_in=ExtraSkip(), extra_out=ExtraSkip(), skip=['c_'])]"
+)
+_DOC_FULL = "Doc('t', 'b', 3, 'x', ['k'], 'd', {'z': 1})"
+_DOC_MIN = "Doc('t')"
+_DOC_CALLS_A = [_dump("Doc", _DOC_FULL), _dump("Doc", _DOC_MIN), _load("Doc", "{'Title': 't', 'zzz': 1}")]
+_DOC_CALLS_B = [_load("Doc", "{'Title': 't', 'Body': 'b', 'PAGE_COUNT': 2, 'labels': ['x']}"), _load("Doc", "{'T': 't'}"),
+                _load("Doc", "{'Title': 't'}"), _dump("Doc", _DOC_FULL)]
+
+_ZOO_OBJ = "Zoo('a', 'u', NT(1), {'k': 1, 'l_': 'x'}, Gen(1, [2]), Color.RED, Pair(1, 2, 3))"
+_ZOO_DATUM = ("{'lit': 'b', 'uni': 5, 'nt': [1, 'z'], 'td': {'k': 2}, 'gen': {'item': 1, 'items': [2, 3]}, 'color': 1, "
+              "'opt': {'A': 1, 'B': 2}}")
+_ZOO_BAD = "{'lit': 'c', 'uni': None, 'nt': [1], 'td': {'k': 'x'}, 'gen': {'item': 'x'}, 'opt': {'a': 1, 'b': 2}}"
+
+SCENARIOS: dict = {
+    # the default recipe only (plain Retort()), one recursive model with an enum, Optional, List, Dict
+    "plain_load": {"recipe": "[]", "threads": [[_load("Node", _NODE_DATUM), _load("Node", _NODE_BAD)]] * 2},
+    "plain_dump": {"recipe": "[]", "threads": [[_dump("Node", _NODE_OBJ)]] * 2},
+    # two models whose name layouts differ in every option a layout maker could remember between two calls
+    "two_models": {
+        "recipe": "[name_mapping(Point, as_list=True), name_mapping(Settings, skip=['debug'])]",
+        "threads": [[_dump("Settings", "Settings()"), _load("Settings", "{}")],
+                    [_dump("Point", "Point(1, 2)"), _load("Point", "[1, 2]"), _load("Point", "{}")]],
+        "points": "all_lines", "orders": [[0, 1], [1, 0]],
+    },
+    # two name_mapping(map=...) providers apply to one model: the maps must be concatenated, not replaced
+    "chained_maps": {
+        "recipe": "[name_mapping(Pair, map={'a': 'A'}), name_mapping(map={'b': 'B'})]",
+        "threads": [[_dump("Pair", "Pair(1, 2, 3)"), _load("Pair", "{'A': 1, 'B': 2, 'c': 5}")],
+                    [_load("Pair", "{'A': 1, 'B': 2}"), _load("Pair", "{'a': 1, 'b': 2}"), _dump("Pair", "Pair(1, 2)")]],
+        "orders": [[0, 1], [1, 0]],
+    },
+    # every option of every overlay class set by chained providers (see _POLICY_RECIPE)
+    "policies": {"recipe": _POLICY_RECIPE, "threads": [_DOC_CALLS_A, _DOC_CALLS_B], "orders": [[0, 1], [1, 0]]},
+    # overlays merged along the MRO of the model and along the chain
+    "inherited": {
+        "recipe": ("[name_mapping(Child, map={'name': 'Name'}, only=['id', 'name', 'sort_key']), name_mapping(Base, map={'id': 'ID'},"
+                   " name_style=NameStyle.CAMEL, omit_default=True), name_mapping(map={'kind': 'Kind', 'id': 'Id'},"
+                   " only=['id', 'kind'], omit_default=False, name_style=NameStyle.UPPER_DOT)]"),
+        "threads": [[_dump("Child", "Child(1, 'q', 5, 'n')"), _load("Base", "{'ID': 1, 'sortKey': 2}"), _dump("Child", "Child(1)")],
+                    [_load("Child", "{'Id': 1, 'Kind': 'k', 'Name': 'n', 'SORT.KEY': 3}"), _load("Child", "{'ID': 1}"),
+                     _dump("Base", "Base(1, 'q', 7)")]],
+        "orders": [[0, 1], [1, 0]],
+    },
+    # the chained policies of one model race with the chained maps of another model nested in a third one
+    "nested_two_chains": {
+        "recipe": "[name_mapping(Pair, map={'a': 'A'}), name_mapping(Box, map={'pair': 'P'}), *" + _POLICY_RECIPE + "]",
+        "threads": [[_dump("Box", "Box(Pair(1, 2), [" + _DOC_FULL + "])"),
+                     _load("Box", "{'P': {'A': 1, 'b': 2}, 'docs': [{'Title': 't'}]}")],
+                    [*_DOC_CALLS_B[:2], _dump("Pair", "Pair(1, 2)"), _load("Box", "{'P': {'A': 1, 'B': 2}}")]],
+        "points": "all_lines", "orders": [[0, 1], [1, 0]],
+    },
+    # many kinds of types and shapes in the first request of the process (Literal, Union, NamedTuple, TypedDict, generic model,
+    # enum, Optional model) under a chained recipe
+    "zoo": {
+        "recipe": "[name_mapping(Pair, map={'a': 'A'}), name_mapping(TD, map={'l_': 'L'}), name_mapping(map={'b': 'B'})]",
+        "threads": [[_dump("Zoo", _ZOO_OBJ), _load("Zoo", _ZOO_BAD)], [_load("Zoo", _ZOO_DATUM), _dump("Zoo", _ZOO_OBJ)]],
+        "orders": [[0, 1], [1, 0]],
+    },
+}
+_OLD_PROGRAMS = {("same_model", "load"): "plain_load", ("same_model", "dump"): "plain_dump", ("two_models", "both"): "two_models"}
+
+
+def scenario_of(case: dict) -> str:
+    if "scenario" in case:
+        return case["scenario"]
+    return _OLD_PROGRAMS[(case.get("program", "same_model"), case.get("what", "load"))]   # cases recorded by older versions
+
+
 # ------------------------------------------------------------------------------------------------ child side
-def _child(arg: dict) -> dict:  # noqa: C901, PLR0915
+_ENV = {}
+
+
+def _prepare() -> dict:
+    """Imports only: nothing here may build a retort or ask adaptix for anything (the image must stay cold)."""
+    if _ENV:
+        return _ENV
     sys.path.insert(0, HERE)
     from vkit import env  # noqa: PLC0415
     env.import_adaptix()
     import adaptix  # noqa: PLC0415
-    from adaptix import Retort  # noqa: PLC0415
     from adaptix.load_error import LoadError  # noqa: PLC0415
+    from vkit.errors import leaves  # noqa: PLC0415
     from vkit.sched import Scheduler  # noqa: PLC0415
 
     pkg = os.path.dirname(adaptix.__file__)
-    traced = frozenset(os.path.join(d, n) for d, _, names in os.walk(pkg) for n in names if n.endswith(".py"))
-    datum = {"value": 1, "leaf": {"c": 1}, "children": [{"value": 2, "leaf": {"c": 1, "t": "x"}, "children": [], "tags": {"a": 1}}]}
-    obj = Node(1, Leaf(Color.RED), [Node(2, Leaf(Color.RED, "x"), [], {"a": 1})])
-    bad = {"value": 1, "leaf": {"c": 5}, "children": [{"value": "x", "leaf": {"c": 1}, "children": []}]}
-    what = arg.get("what", "load")
+    spaces = {}
+    for tag in ("a", "b"):
+        mod = types.ModuleType(f"cold12_models_{tag}")
+        sys.modules[mod.__name__] = mod
+        exec(compile(MODELS_SRC, f"<cold12 models {tag}>", "exec"), mod.__dict__)  # noqa: S102 -- stdlib only, no adaptix code runs
+        for name in ("Retort", "name_mapping", "NameStyle", "ExtraForbid", "ExtraSkip", "ExtraCollect", "Chain", "P"):
+            mod.__dict__[name] = getattr(adaptix, name)
+        spaces[tag] = mod.__dict__
+    _ENV.update(
+        pkg=pkg, spaces=spaces, LoadError=LoadError, leaves=leaves, Scheduler=Scheduler, Retort=adaptix.Retort,
+        traced=frozenset(os.path.join(d, n) for d, _, names in os.walk(pkg) for n in names if n.endswith(".py")),
+    )
+    return _ENV
+
+
+_ADDR = re.compile(r"0x[0-9a-fA-F]+")
+_NO_YIELD = frozenset({"generate_idx"})   # the body of the only real lock
+
+
+def _child(arg: dict) -> dict:  # noqa: C901, PLR0915
+    e = _prepare()
+    spaces, LoadError, leaves, Scheduler, Retort = e["spaces"], e["LoadError"], e["leaves"], e["Scheduler"], e["Retort"]
+    scen = SCENARIOS[arg["scenario"]]
+    prio = arg.get("prio", [0, 1])
+
+    def exc_struct(ex):
+        if isinstance(ex, (LoadError, BaseExceptionGroup)):
+            return [type(ex).__name__, sorted([repr(list(trail)), type(leaf).__name__, _ADDR.sub("0x", repr(leaf))[:160]]
+                                              for trail, leaf in leaves(ex))]
+        return [type(ex).__name__, _ADDR.sub("0x", str(ex))[:160]]
 
     def outcome(fn):
         try:
             return ["ok", repr(fn())]
-        except BaseException as ex:  # noqa: BLE001
-            def flat(e):
-                if isinstance(e, BaseExceptionGroup):
-                    return [type(e).__name__, sorted(json.dumps(flat(s)) for s in e.exceptions)]
-                return [type(e).__name__, str(e)[:120] if not isinstance(e, LoadError) else ""]
-            return ["err", flat(ex)]
+        except Exception as ex:  # noqa: BLE001 -- the observed behaviour of the code under test: it becomes the outcome
+            return ["err", exc_struct(ex)]
 
-    program = arg.get("program", "same_model")
+    def make_retort(tag="a"):
+        return Retort(recipe=eval(scen["recipe"], spaces[tag]))  # noqa: S307
 
-    def make_retort():
-        if program == "two_models":
-            from adaptix import name_mapping  # noqa: PLC0415
-            # two models whose name layouts differ in every option a layout maker could remember between two calls
-            return Retort(recipe=[name_mapping(Point, as_list=True), name_mapping(Settings, skip=["debug"])])
-        return Retort()
+    def calls(retort, i, tag="a"):
+        ns = spaces[tag]
+        out = []
+        for kind, tp, src in scen["threads"][i]:
+            hint, datum = ns[tp], eval(src, ns)  # noqa: S307
+            out.append((lambda d=datum, h=hint: retort.load(d, h)) if kind == "load" else (lambda d=datum, h=hint: retort.dump(d, h)))
+        return out
 
-    def calls(retort, i=0):
-        if program == "two_models":
-            if i == 0:
-                return [lambda: retort.dump(Settings(), Settings), lambda: retort.load({}, Settings)]
-            return [lambda: retort.dump(Point(1, 2), Point), lambda: retort.load([1, 2], Point), lambda: retort.load({}, Point)]
-        if what == "load":
-            return [lambda: retort.load(datum, Node), lambda: retort.load(bad, Node)]
-        return [lambda: retort.dump(obj, Node)]
-
-    def race(retort, schedule, record):
+    def race(retort, schedule, record, tag="a"):
         outs = [None, None]
 
         def body(sched, i):
-            outs[i] = [outcome(c) for c in calls(retort, i)]
+            outs[i] = [outcome(c) for c in calls(retort, i, tag)]
 
-        sched = Scheduler([body, body], schedule, traced_files=traced, no_yield=frozenset({"generate_idx"}),
-                          grace=3.0, block_detect=0.2, max_steps=3_000_000, record=record, engine="monitoring")
+        sched = Scheduler([body, body], schedule, traced_files=e["traced"], no_yield=_NO_YIELD,
+                          grace=float(arg.get("grace", 3.0)), block_detect=0.2, max_steps=3_000_000, record=record,
+                          engine="monitoring", log_files=True)
         res = sched.run()
         return outs, res
 
-    if arg["mode"] == "profile_all":
-        # every distinct line the first thread executes (no cold / warm distinction): for state shared between requests through
-        # objects that outlive a request (providers of the class-level recipe ...)
-        _, res = race(make_retort(), {"prio": arg.get("prio", [0, 1]), "cp": []}, True)
-        first = arg.get("prio", [0, 1])[0]
-        seen, points = set(), []
-        for g, (idx, name, line) in enumerate(res.log):
-            if idx == first and (name, line) not in seen:
-                seen.add((name, line))
-                points.append([g, name, line])
-        return {"status": res.status, "points": points, "steps": len(res.log)}
-    if arg["mode"] == "profile":
-        _, res_cold = race(Retort(), {"prio": [0, 1], "cp": []}, True)
-        _, res_warm = race(Retort(), {"prio": [0, 1], "cp": []}, True)
+    mode = arg["mode"]
+    if mode == "reference":
+        # a clean single-threaded process: no second thread, no tracing
+        fresh = make_retort()
+        return {"status": "ok", "ref": [[outcome(c) for c in calls(fresh, i)] for i in (0, 1)]}
+    if mode == "profile":
+        # three sequential recorded runs (threads in priority order), each on a fresh retort: COLD process; the warm process
+        # meeting NEW TYPES (equal models, distinct classes); the warm process meeting the SAME types again.
+        # Per yield point of the first thread of the cold run:
+        #   kind 2 = its line runs once per PROCESS (not executed again for new types), 1 = once per TYPE (executed for new types,
+        #   not for known ones), 0 = every time
+        _, res_cold = race(make_retort(), {"prio": prio, "cp": []}, True)
+        if res_cold.status != "ok" or res_cold.fallbacks:
+            return {"status": "profile_" + res_cold.status, "fallbacks": res_cold.fallbacks}
+        _, res_new = race(make_retort("b"), {"prio": prio, "cp": []}, True, "b")
+        _, res_warm = race(make_retort(), {"prio": prio, "cp": []}, True)
+        new_types = {(name, line) for _, name, line in res_new.log}
         warm = {(name, line) for _, name, line in res_warm.log}
+        first = prio[0]
+        # [global yield index, file:function, line, 1 = first occurrence of the line, kind]
         seen, points = set(), []
         for g, (idx, name, line) in enumerate(res_cold.log):
-            if idx == 0 and (name, line) not in warm and (name, line) not in seen:
-                seen.add((name, line))
-                points.append([g, name, line])
-        return {"status": res_cold.status, "points": points, "cold_steps": len(res_cold.log), "warm_steps": len(res_warm.log)}
+            if idx != first:
+                continue
+            key = (name, line)
+            kind = 0 if key in warm else 1 if key in new_types else 2
+            new = key not in seen
+            seen.add(key)
+            if kind or (new and scen.get("points") == "all_lines"):
+                points.append([g, name, line, int(new), kind])
+        return {"status": "ok", "points": points, "cold_steps": len(res_cold.log), "new_types_steps": len(res_new.log),
+                "warm_steps": len(res_warm.log), "first_steps": res_cold.per_thread_steps[first]}
 
     retort = make_retort()
-    outs, res = race(retort, {"prio": arg.get("prio", [0, 1]), "cp": [int(arg["cp"])]}, False)
+    outs, res = race(retort, {"prio": prio, "cp": [int(arg["cp"])]}, False)
     if res.status != "ok":
-        return {"status": res.status, "ok": True, "inconclusive": True}
+        return {"status": res.status, "blocked_at": [[i, w] for i, w in res.blocked_at]}
+    if res.errors:
+        raise res.errors[0][1]
     later = [[outcome(c) for c in calls(retort, i)] for i in (0, 1)]
     fresh = make_retort()
-    ref = [[outcome(c) for c in calls(fresh, i)] for i in (0, 1)]
-    where = [[sw.func, sw.line] for sw in res.switches][:2]
-    diffs = []
-    for name, got, exp in (("thread0", outs[0], ref[0]), ("thread1", outs[1], ref[1]), ("later0", later[0], ref[0]),
-                           ("later1", later[1], ref[1])):
-        if got != exp:
-            diffs.append({"who": name, "got": got, "expected": exp})
-    return {"status": "ok", "ok": not diffs, "diffs": diffs[:2], "switched": bool(res.switches), "where": where,
-            "errors": [repr(e) for _, e in res.errors][:1]}
+    after = [[outcome(c) for c in calls(fresh, i)] for i in (0, 1)]
+    return {"status": "ok", "race": outs, "later": later, "fresh_after": after, "switched": bool(res.switches),
+            "fallbacks": res.fallbacks, "where": [[sw.file[len(e["pkg"]) + 1:], sw.func, sw.line] for sw in res.switches][:2]}
+
+
+def _guarded_child(raw: str) -> str:
+    try:
+        out = _child(json.loads(raw))
+    except BaseException as ex:  # noqa: BLE001 -- reported to the parent, which turns it into a harness error
+        import traceback  # noqa: PLC0415
+        out = {"status": "child_crashed", "error": "".join(traceback.format_exception(type(ex), ex, ex.__traceback__))[-1500:]}
+    return json.dumps(out)
 
 
 def _child_main(raw: str):
-    try:
-        out = _child(json.loads(raw))
-    except BaseException as ex:  # noqa: BLE001
-        import traceback  # noqa: PLC0415
-        out = {"status": "child_crashed", "error": "".join(traceback.format_exception(type(ex), ex, ex.__traceback__))[-1500:]}
-    print(json.dumps(out), flush=True)
+    print(_guarded_child(raw), flush=True)
     os._exit(0)
 
 
+def _zygote_main():
+    """Import, then fork once per request line; the image itself never builds a retort."""
+    e = _prepare()
+    # instrumenting the code objects runs no adaptix code; done once here instead of once per fork
+    from vkit.sched import _Monitor  # noqa: PLC0415
+    _Monitor.install(e["traced"], _NO_YIELD)
+    print(json.dumps({"status": "ready"}), flush=True)
+    for raw in sys.stdin:
+        raw = raw.strip()
+        if not raw:
+            continue
+        timeout = float(json.loads(raw).get("timeout", 60.0))
+        r, w = os.pipe()
+        pid = os.fork()
+        if pid == 0:
+            os.close(r)
+            data = _guarded_child(raw).encode()
+            while data:
+                data = data[os.write(w, data):]
+            os._exit(0)
+        os.close(w)
+        chunks, deadline, timed_out = [], time.monotonic() + timeout, False
+        while True:
+            left = deadline - time.monotonic()
+            ready = select.select([r], [], [], max(left, 0))[0] if left > 0 else []
+            if not ready:
+                timed_out = True
+                os.kill(pid, signal.SIGKILL)
+                break
+            chunk = os.read(r, 1 << 16)
+            if not chunk:
+                break
+            chunks.append(chunk)
+        os.close(r)
+        os.waitpid(pid, 0)
+        text = b"".join(chunks).decode()
+        if timed_out or not text.startswith("{"):
+            text = json.dumps({"status": "timeout" if timed_out else "no_output"})
+        print(text, flush=True)
+
+
 # ------------------------------------------------------------------------------------------------ parent side
-def run_child(arg: dict, timeout: float = 120.0) -> dict:
+def _child_env() -> dict:
+    # outcomes (reprs of sets in error messages) are compared ACROSS processes: string hashing must not be randomised
+    return dict(os.environ, PYTHONHASHSEED="0", PYTHONDONTWRITEBYTECODE="1")
+
+
+class _Zygote:
+    proc = None
+
+    @classmethod
+    def start(cls):
+        if cls.proc is not None and cls.proc.poll() is None:
+            return
+        cls.proc = subprocess.Popen([sys.executable, "-m", "props.cold12", "--zygote"], cwd=HERE, stdin=subprocess.PIPE,  # noqa: S603
+                                    stdout=subprocess.PIPE, text=True, bufsize=1, env=_child_env())
+        line = cls.proc.stdout.readline()
+        if '"ready"' not in line:
+            cls.stop()
+            raise RuntimeError(f"cold12 zygote did not start: {line!r}")
+
+    @classmethod
+    def stop(cls):
+        p, cls.proc = cls.proc, None
+        if p is not None:
+            try:
+                p.stdin.close()
+                p.wait(timeout=5)
+            except Exception:  # noqa: BLE001 -- cleanup of a helper process
+                p.kill()
+
+    @classmethod
+    def request(cls, arg: dict) -> dict:
+        cls.start()
+        try:
+            cls.proc.stdin.write(json.dumps(arg) + "\n")
+            cls.proc.stdin.flush()
+            line = cls.proc.stdout.readline()
+        except (BrokenPipeError, OSError):
+            line = ""
+        if not line.startswith("{"):
+            cls.stop()
+            return {"status": "zygote_died"}
+        return json.loads(line)
+
+
+atexit.register(_Zygote.stop)
+
+
+def run_fresh(arg: dict, timeout: float = 120.0) -> dict:
+    """The same request in a really fresh interpreter."""
     cmd = [sys.executable, "-m", "props.cold12", "--child", json.dumps(arg)]
     try:
-        p = subprocess.run(cmd, cwd=HERE, capture_output=True, text=True, timeout=timeout, check=False)  # noqa: S603
+        p = subprocess.run(cmd, cwd=HERE, capture_output=True, text=True, timeout=timeout, check=False, env=_child_env())  # noqa: S603
     except subprocess.TimeoutExpired:
         return {"status": "timeout"}
     for line in reversed(p.stdout.splitlines()):
@@ -172,76 +478,248 @@ def run_child(arg: dict, timeout: float = 120.0) -> dict:
     return {"status": "no_output", "stderr": p.stderr[-400:]}
 
 
-def check_cold_case(ctx, case):
-    """case = {"cold": True, "what": "load"|"dump", "cp": k, "func": name, "line": n[, "program": "two_models", "prio": [..]]}"""
-    out = run_child({"mode": "run", "cp": case["cp"], "what": case["what"], "program": case.get("program", "same_model"),
-                     "prio": case.get("prio", [0, 1])})
+def run_child(arg: dict) -> dict:
+    out = _Zygote.request(arg)
+    if out.get("status") == "child_crashed":
+        from vkit import env  # noqa: PLC0415
+        raise env.HarnessError(f"cold12 child crashed on {arg!r}: {out.get('error')}")
+    return out
+
+
+_REFS: dict = {}
+
+
+def reference(scenario: str):
+    """Outcomes of all calls of the scenario in a clean single-threaded process (twice: they must not depend on the process)."""
+    ref = _REFS.get(scenario)
+    if ref is None:
+        a = run_child({"mode": "reference", "scenario": scenario})
+        b = run_child({"mode": "reference", "scenario": scenario})
+        if a.get("status") != "ok" or a != b:
+            from vkit import env  # noqa: PLC0415
+            raise env.HarnessError(f"cold12 reference of {scenario} is not reproducible: {a!r} / {b!r}")
+        ref = _REFS[scenario] = a["ref"]
+    return ref
+
+
+def _first_bad(got, exp):
+    """-> (index of the first differing call, exception type or 'value')"""
+    for k, (g, x) in enumerate(zip(got, exp)):
+        if g != x:
+            return k, (g[1][0] if g[0] == "err" else "value")
+    return len(exp), "missing"
+
+
+def check_cold_case(ctx, case):  # noqa: C901
+    """case = {"cold": True, "scenario": name, "prio": [..], "cp": k, "file": .., "func": .., "line": n}"""
+    scenario = scenario_of(case)
+    prio = case.get("prio") or [0, 1]
+    arg = {"mode": "run", "scenario": scenario, "cp": case["cp"], "prio": prio}
+    out = run_child(arg)
     status = out.get("status")
-    if status != "ok" or out.get("inconclusive"):
+    if status == "hang":
+        ctx.count("cold_hang_observed")
+        second = run_fresh(dict(arg, grace=9.0))
+        if second.get("status") == "hang":
+            ctx.violation("deadlock", ("cold", scenario, str(case.get("func"))), case,
+                          f"process that never built a retort, scenario {scenario}: all unfinished threads blocked (twice, the "
+                          f"second time in a fresh interpreter with a 9 s grace period): {second.get('blocked_at')!r}")
+        else:
+            ctx.count("cold_inconclusive:hang_not_reproduced")
+        return
+    if status != "ok":
         ctx.count(f"cold_inconclusive:{status}")
         return
-    prog = case.get("program", "same_model")
-    ctx.case(["cold", prog, case["what"], case["cp"], case.get("prio")], bool(out.get("switched")),
-             sample={"cold": True, "program": prog, "what": case["what"], "preempted_at": [case.get("func"), case.get("line")]},
-             labels=["part:cold_process" if prog == "same_model" else "part:two_models_all_files", f"cold:{case['what']}",
-                     *(["cold:switched"] if out.get("switched") else [])])
-    if not out["ok"]:
-        d = out["diffs"][0]
-        got = d["got"]
-        exc = next((o[1][0] for o in got if o and o[0] == "err" and o not in d["expected"]), "value")
-        if prog == "two_models":
-            ctx.violation("two_models_race", (str(exc), d["who"].rstrip("01")), case,
-                          f"fresh interpreter, one shared retort, one thread dumps / loads Settings (empty layout), the other Point "
-                          f"(list layout); the first thread was parked at yield point {case['cp']} ({case.get('func')}:"
-                          f"{case.get('line')}) while the other ran all its calls: {d['who']} got {d['got']!r}, a single thread "
-                          f"gets {d['expected']!r}")
+    ref = reference(scenario)
+    diffs = []
+    for name, got in (("race", out["race"]), ("later", out["later"]), ("fresh_retort_after_race", out["fresh_after"])):
+        for i in (0, 1):
+            if got[i] != ref[i]:
+                diffs.append((name, i, got[i], ref[i]))
+    if diffs and out.get("fallbacks"):
+        # a thread was blocked for real: the run was not a pure function of the schedule, demand the same differences again
+        ctx.count("cold_runs_with_liveness_fallback")
+        again = run_child(arg)
+        if again.get("status") != "ok" or any(again[k] != out[k] for k in ("race", "later", "fresh_after")):
+            ctx.count("cold_inconclusive:not_reproducible_after_fallback")
             return
-        ctx.violation("cold_first_use_race", (case["what"], str(exc), str(case.get("func"))), case,
-                      f"fresh interpreter, two threads {case['what']} the same model for the first time in the process; thread 0 "
-                      f"parked at yield point {case['cp']} ({case.get('func')}:{case.get('line')}) while thread 1 ran its whole "
-                      f"call: {d['who']} got {d['got']!r}, a single thread gets {d['expected']!r}")
+    spec = SCENARIOS[scenario]
+    where = [case.get("file"), case.get("func"), case.get("line")]
+    ctx.case(["cold", scenario, prio, case["cp"]], bool(out.get("switched")),
+             sample={"cold": True, "scenario": scenario, "prio": prio, "cp": case["cp"], "preempted_at": out.get("where") or where},
+             labels=["part:cold_process", f"cold:{scenario}", f"cold_points:{spec.get('points', 'cold_only')}",
+                     *(["cold:switched"] if out.get("switched") else []),
+                     *(["cold:preempted_outside_retort_files"] if out.get("switched") and out["where"]
+                       and not _in_retort_files(out["where"][0][0]) else [])])
+    ctx.count("cold_calls_compared", 3 * sum(len(t) for t in spec["threads"]))
+    for name, i, got, exp in diffs[:3]:
+        k, exc = _first_bad(got, exp)
+        op = spec["threads"][i][k] if k < len(spec["threads"][i]) else ["?", "?", "?"]
+        ctx.violation("cold_first_use_race", (scenario, name, op[0], str(exc), str(case.get("func"))), case,
+                      f"process that never built a retort; one shared Retort(recipe={spec['recipe']}); thread {prio[0]} was parked "
+                      f"at yield point {case['cp']} ({where}) while thread {prio[1]} ran all its calls; {name}: thread {i} call "
+                      f"#{k} {op[0]}({op[1]}, {op[2]}) gave {got[k] if k < len(got) else None!r}, a single-threaded run in a clean "
+                      f"process gives {exp[k] if k < len(exp) else None!r}")
 
 
-def explore_cold(ctx, per_shard: int):
-    """Profile once (per shard: shards are separate processes), then this shard's slice of the cold-only lines."""
-    for what in ("load", "dump"):
-        prof = run_child({"mode": "profile", "what": what})
+def _in_retort_files(rel: str) -> bool:
+    rel = rel.replace(os.sep, "/")
+    return rel.startswith("_internal/retort/") or rel in ("_internal/morphing/facade/retort.py", "_internal/provider/essential.py",
+                                                           "_internal/code_tools/compiler.py")
+
+
+def _split_func(name: str):
+    file, _, func = name.rpartition(":")
+    return file, func
+
+
+def explore_cold(ctx, extra_per_shard: int):  # noqa: C901, PLR0912, PLR0915
+    """Schedules of this shard.  A *unit* is (scenario, thread order); its profile classifies the lines of the first thread:
+    once per PROCESS (a warm process does not execute them even for new types), once per TYPE, every time.
+
+    must, quick (never sampled; first occurrence of the line): every once-per-process line in every scenario that executes it (in
+    the other thread order: those that every scenario executes); every once-per-type line in one scenario (seed-dependent choice).
+    must, thorough: every once-per-process / once-per-type line in every unit.
+    extra (seed-dependent sample, the same share for every unit, ``extra_per_shard`` per shard; thorough: up to all): the remaining
+    (unit, line) pairs, later occurrences of those lines, all distinct lines of the first thread for the ``all_lines`` scenarios.
+    """
+    from vkit import env  # noqa: PLC0415
+    from vkit.runner import h64  # noqa: PLC0415
+    names = sorted(SCENARIOS)
+    quick = ctx.tier == "quick"
+    t0 = time.monotonic()
+
+    def lap(what):
+        if os.environ.get("C12_TIMING"):
+            print(f"[C12 timing] shard {ctx.shard}: cold/{what} at {time.monotonic() - t0:.1f}s", file=sys.stderr, flush=True)
+
+    # the zygote's forks must be as cold as a fresh interpreter: the same profile comes out of both (quick: two shards check one
+    # scenario each, thorough: every shard; the fresh interpreter runs in the background meanwhile)
+    probe, fresh_proc = None, None
+    if not quick or ctx.shard < 2:
+        probe = names[(ctx.base_seed + ctx.shard) % len(names)]
+        fresh_proc = subprocess.Popen([sys.executable, "-m", "props.cold12", "--child",  # noqa: S603
+                                       json.dumps({"mode": "profile", "scenario": probe, "prio": [0, 1]})],
+                                      cwd=HERE, stdout=subprocess.PIPE, stderr=subprocess.DEVNULL, text=True, env=_child_env())
+
+    def profile_of(name, prio):
+        prof = run_child({"mode": "profile", "scenario": name, "prio": prio})
         if prof.get("status") != "ok":
-            ctx.note(f"cold profile ({what}) failed: {prof.get('status')} {str(prof.get('error') or prof.get('stderr'))[-300:]}")
+            ctx.note(f"cold profile of {name} prio={prio} failed: {prof.get('status')}")
             ctx.count("cold_profile_failed")
+            return None
+        return prof
+
+    forward = {}
+    for name in names:
+        prof = profile_of(name, [0, 1])
+        if prof is not None:
+            forward[name] = prof
+    if fresh_proc is not None:
+        text = fresh_proc.communicate(timeout=300)[0]
+        got = next((json.loads(ln) for ln in reversed(text.splitlines()) if ln.startswith("{")), {"status": "no_output"})
+        if got.get("status") == "ok" and probe in forward:
+            if got != forward[probe]:
+                raise env.HarnessError(f"profile of {probe} differs between a fork of the zygote and a fresh interpreter: "
+                                       f"{len(got['points'])} / {len(forward[probe]['points'])} points")
+            ctx.count("cold_zygote_equals_fresh_interpreter")
+        else:
+            ctx.count("cold_zygote_cross_check_inconclusive")
+    lap("forward profiles")
+
+    def first_of(prof, kind):
+        return [p for p in prof["points"] if p[3] and p[4] == kind]
+
+    per_process, per_type = {}, {}   # line -> forward scenarios where it runs once per process / once per type
+    for name, prof in forward.items():
+        for p in first_of(prof, 2):
+            per_process.setdefault((p[1], p[2]), []).append(name)
+        for p in first_of(prof, 1):
+            per_type.setdefault((p[1], p[2]), []).append(name)
+    universal = {ln for ln, sc in per_process.items() if len(sc) == len(forward)}
+    chosen = {ln: sc[(h64([ln[0], ln[1]]) + ctx.base_seed) % len(sc)] for ln, sc in per_type.items()}
+    if ctx.shard == 0:
+        ctx.count("cold_once_per_process_lines_distinct", len(per_process))
+        ctx.count("cold_once_per_process_lines_in_every_scenario", len(universal))
+        ctx.count("cold_once_per_type_lines_distinct", len(per_type))
+        for name, prof in forward.items():
+            ctx.count(f"cold_once_per_process_lines:{name}", len(first_of(prof, 2)))
+            ctx.count(f"cold_once_per_type_lines:{name}", len(first_of(prof, 1)))
+
+    must, must_own, extra = [], [], []
+
+    def sort_points(name, prio, prof, strided):
+        spec = SCENARIOS[name]
+        for p in prof["points"]:
+            item = (name, prio, p)
+            ln = (p[1], p[2])
+            if not p[3]:
+                take = False
+            elif not quick:
+                take = p[4] > 0
+            elif prio == [0, 1]:
+                take = p[4] == 2 or (p[4] == 1 and chosen.get(ln) == name)
+            else:
+                take = p[4] == 2 and ln in universal
+            if take:
+                (must if strided else must_own).append(item)
+            elif p[4] or (p[3] and spec.get("points") == "all_lines"):
+                extra.append(item)
+
+    for name, prof in forward.items():
+        sort_points(name, [0, 1], prof, True)
+    # the other thread order: quick -- each such unit is profiled and explored by one shard only
+    others = [(name, prio) for name in names for prio in SCENARIOS[name].get("orders", [[0, 1]]) if prio != [0, 1]]
+    for k, (name, prio) in enumerate(others):
+        if quick and k % ctx.nshards != ctx.shard:
             continue
-        points = prof["points"]
-        ctx.count(f"cold_only_lines_{what}", len(points) if ctx.shard == 0 else 0)
-        order = list(range(len(points)))
-        random.Random(ctx.base_seed * 1000003 + (0 if what == "load" else 1)).shuffle(order)
-        n = max(1, per_shard // 2)
-        mine = order[ctx.shard * n:(ctx.shard + 1) * n]
-        for i in mine:
-            if ctx.out_of_time():
-                return
-            g, name, line = points[i]
-            check_cold_case(ctx, {"cold": True, "what": what, "cp": g, "func": name, "line": line})
-    # two DIFFERENT models on one retort, line events on every file: a sample of all distinct lines of the first thread
-    for prio in ([0, 1], [1, 0]):
-        prof = run_child({"mode": "profile_all", "program": "two_models", "prio": prio})
-        if prof.get("status") != "ok":
-            ctx.count("two_models_profile_failed")
-            continue
-        points = prof["points"]
-        ctx.count("two_models_distinct_lines", len(points) if ctx.shard == 0 else 0)
-        order = list(range(len(points)))
-        random.Random(ctx.base_seed * 7919 + prio[0]).shuffle(order)
-        n = max(1, per_shard // 2)
-        for i in order[ctx.shard * n:(ctx.shard + 1) * n]:
-            if ctx.out_of_time():
-                return
-            g, name, line = points[i]
-            check_cold_case(ctx, {"cold": True, "program": "two_models", "what": "both", "cp": g, "func": name, "line": line,
-                                  "prio": prio})
-    ctx.note("cold-process part: every schedule in a fresh interpreter, line events on every file of the adaptix package; "
-             "preemption points = lines executed only by the first (cold) creation of the process, a seed-dependent sample")
+        prof = profile_of(name, prio)
+        if prof is not None:
+            sort_points(name, prio, prof, not quick)
+    lap("all profiles")
+    # extras: the same share for every unit (the pools differ by two orders of magnitude), seed-dependent order inside a unit;
+    # a unit that every shard has profiled is strided over the shards, a unit only this shard has profiled is all its own
+    pools = {}
+    for item in extra:
+        pools.setdefault((item[0], tuple(item[1])), []).append(item)
+    rnd = random.Random(ctx.base_seed * 1000003 + 12)
+    for key in sorted(pools):
+        rnd.shuffle(pools[key])
+        if not quick or key[1] == (0, 1):
+            pools[key] = pools[key][ctx.shard::ctx.nshards]
+    n_extra = sum(map(len, pools.values()))
+    # round robin over the units; an all_lines unit (its whole point set is "extra") takes three per round
+    width = {key: 3 if SCENARIOS[key[0]].get("points") == "all_lines" else 1 for key in pools}
+    rounds = max((-(-len(pool) // width[key]) for key, pool in pools.items()), default=0)
+    extra = [item for k in range(rounds) for key, pool in sorted(pools.items()) for item in pool[k * width[key]:(k + 1) * width[key]]]
+    my_extra = extra[:extra_per_shard]
+    mine = must[ctx.shard::ctx.nshards] + must_own + my_extra
+    done_all = True
+    for name, prio, (g, fn, line, _new, _cold) in mine:
+        if ctx.out_of_time():
+            done_all = False
+            break
+        file, func = _split_func(fn)
+        check_cold_case(ctx, {"cold": True, "scenario": name, "prio": prio, "cp": g, "file": file, "func": func, "line": line})
+    lap(f"{len(mine)} schedules")
+    if done_all and quick:
+        ctx.mark_exhaustive(f"cold process: every line that runs once per process ({len(per_process)} distinct lines) is preempted in "
+                            f"every scenario whose first thread executes it; the {len(universal)} of them that every scenario executes "
+                            f"also in the other thread order; each of the {len(per_type)} lines that run once per type in one scenario")
+    elif done_all:
+        ctx.mark_exhaustive(f"cold process: all single-preemption schedules at the first occurrence of every once-per-process / "
+                            f"once-per-type line, all {len(names)} scenarios x thread orders ({len(must)} schedules over all shards)")
+        if extra_per_shard >= n_extra:
+            ctx.mark_exhaustive("cold process: all further points (later occurrences of the once-per-process / once-per-type lines; "
+                                "all distinct lines of the first thread for the all_lines scenarios)")
+    ctx.note("cold-process part: every schedule in a fork of an image that has imported adaptix but never built a retort (its "
+             "profile is compared with a fresh interpreter's), line events on every file of the adaptix package; reference from a "
+             "clean single-threaded process")
+    _Zygote.stop()
 
 
 if __name__ == "__main__":
     if len(sys.argv) >= 3 and sys.argv[1] == "--child":
         _child_main(sys.argv[2])
+    if len(sys.argv) >= 2 and sys.argv[1] == "--zygote":
+        _zygote_main()
